@@ -4,7 +4,7 @@ fixes/C03-12) recovers the tie links of the score.
 -/
 import PartituraModel.Model.RangeNumbers
 import Mathlib.Data.List.Nodup
-import Mathlib.Tactic.Linarith
+import Mathlib.Data.List.Perm.Basic
 
 namespace C03.Ties
 open Model.Ranges
@@ -15,34 +15,25 @@ def Before (A B : TieNote) (ns : List TieNote) : Prop := ∃ l1 l2 l3, ns = l1 +
 /-- the entry of an open tied note -/
 def entry (A : TieNote) : Int × Nat × Nat := (A.pitch, A.note, A.stop)
 
-/-- what is known about the notes still to come (`ns`), the open tied notes (`o`) and the links still to be
-    made (`L`) -/
-structure Inv (o : OpenTies) (L : List (Nat × Nat)) (ns : List TieNote) : Prop where
+/-- the open tied notes together with the notes still to come that carry a start -/
+def pool (o : OpenTies) (ns : List TieNote) : List (Int × Nat × Nat) := o ++ (ns.filter (·.hasStart)).map entry
+
+/-- What is known when the notes `n :: rest` are still to come, the notes in `o` are open and the links `L` are
+    still to be made; `stopDone` says that the stop of `n` has been dealt with already. -/
+structure Inv (stopDone : Bool) (o : OpenTies) (L : List (Nat × Nat)) (n : TieNote) (rest : List TieNote) : Prop where
   /-- identities are distinct, also against the open notes -/
-  ids : ((o.map (·.2.1)) ++ ns.map (·.note)).Nodup
+  ids : ((o.map (·.2.1)) ++ (n :: rest).map (·.note)).Nodup
   /-- the links to be made end at the notes that carry a stop, in document order -/
-  stops : L.map (·.2) = (ns.filter (·.hasStop)).map (·.note)
+  stops : L.map (·.2) = ((if stopDone then rest else n :: rest).filter (·.hasStop)).map (·.note)
   /-- no note is continued twice -/
   once : (L.map (·.1)).Nodup
   /-- the first note of a link is open already, or comes before the second one and carries a start; it has the
       pitch of the second one and ends where that starts -/
-  link : ∀ ab ∈ L, ∃ B ∈ ns, B.note = ab.2 ∧
+  link : ∀ ab ∈ L, ∃ B ∈ n :: rest, B.note = ab.2 ∧
     ((B.pitch, ab.1, B.start) ∈ o ∨
-      ∃ A, A.note = ab.1 ∧ A.hasStart = true ∧ A.pitch = B.pitch ∧ A.stop = B.start ∧ Before A B ns)
+      ∃ A, A.note = ab.1 ∧ A.hasStart = true ∧ A.pitch = B.pitch ∧ A.stop = B.start ∧ Before A B (n :: rest))
   /-- among the open notes and the notes that carry a start, no two of one pitch end at the same time -/
-  apart : (o ++ (ns.filter (·.hasStart)).map entry).Pairwise fun e e' => e.1 = e'.1 → e.2.2 ≠ e'.2.2
-
-theorem removeFirst_perm {x : Int × Nat × Nat} {o : OpenTies} (h : x ∈ o) : (x :: removeFirst x o).Perm o := by
-  induction o with
-  | nil => cases h
-  | cons y ys ih =>
-    unfold removeFirst
-    by_cases hy : y = x
-    · subst hy; simp
-    · simp only [hy, if_false]
-      rcases List.mem_cons.mp h with h | h
-      · exact absurd h.symm hy
-      · exact (List.Perm.swap y x _).trans ((ih h).cons y)
+  apart : ∀ e ∈ pool o (n :: rest), ∀ e' ∈ pool o (n :: rest), e.1 = e'.1 → e.2.2 = e'.2.2 → e = e'
 
 theorem removeFirst_sublist (x : Int × Nat × Nat) (o : OpenTies) : (removeFirst x o).Sublist o := by
   induction o with
@@ -87,76 +78,197 @@ theorem pickTie_spec {o : OpenTies} {pitch : Int} {a pos : Nat} (hm : (pitch, a,
     simp only [Option.some.injEq]
     exact hun e heo (by simpa using hep) (by simpa using he)
 
-theorem readTies_spec : ∀ (ns : List TieNote) (o : OpenTies) (L acc : List (Nat × Nat)), Inv o L ns →
-    (ns.foldl tieStep (o, acc)).2 = acc ++ L := by
-  intro ns
-  induction ns with
+theorem note_notin_rest {so : Bool} {o : OpenTies} {L : List (Nat × Nat)} {n : TieNote} {rest : List TieNote}
+    (h : Inv so o L n rest) : n.note ∉ rest.map (·.note) ∧ n.note ∉ o.map (·.2.1) := by
+  have h1 := (List.nodup_append.mp h.ids).2.1
+  simp only [List.map_cons, List.nodup_cons] at h1
+  refine ⟨h1.1, ?_⟩
+  intro hc
+  exact (List.nodup_append.mp h.ids).2.2 _ hc n.note (by simp) rfl
+
+/-- nothing comes before the first note -/
+theorem not_before_head {A n : TieNote} {rest : List TieNote} (hn : n.note ∉ rest.map (·.note))
+    (h : Before A n (n :: rest)) : False := by
+  obtain ⟨l1, l2, l3, hbef⟩ := h
+  apply hn
+  cases l1 with
   | nil =>
-    intro o L acc h
-    have : L = [] := by
-      have := h.stops
-      simpa using this
-    simp [this]
-  | cons n rest ih =>
-    intro o L acc h
-    simp only [List.foldl_cons]
-    -- identities
+    simp only [List.nil_append, List.cons_append, List.cons.injEq] at hbef
+    rw [hbef.2]; simp
+  | cons x xs =>
+    simp only [List.cons_append, List.cons.injEq] at hbef
+    rw [hbef.2]; simp
+
+/-- the stop of the first note: the next link is made with the right open note -/
+theorem stop_phase {o : OpenTies} {L : List (Nat × Nat)} {n : TieNote} {rest : List TieNote}
+    (h : Inv false o L n rest) (hs : n.hasStop = true) :
+    ∃ a L', L = (a, n.note) :: L' ∧ pickTie n.pitch n.start o = some (n.pitch, a, n.start) ∧
+      Inv true (removeFirst (n.pitch, a, n.start) o) L' n rest := by
+  obtain ⟨hnr, hno⟩ := note_notin_rest h
+  have hst := h.stops
+  simp only [Bool.false_eq_true, if_false, List.filter_cons, hs, if_true, List.map_cons] at hst
+  obtain ⟨ab, L', hL⟩ : ∃ ab L', L = ab :: L' := by
+    cases L with
+    | nil => simp at hst
+    | cons ab L' => exact ⟨ab, L', rfl⟩
+  subst hL
+  simp only [List.map_cons, List.cons.injEq] at hst
+  obtain ⟨hab2, hst'⟩ := hst
+  obtain ⟨a, b⟩ := ab
+  simp only at hab2
+  subst hab2
+  -- the first note of the link is open
+  obtain ⟨B, hB, hBn, hlink⟩ := h.link (a, n.note) (List.mem_cons_self ..)
+  have hBeq : B = n := by
+    rcases List.mem_cons.mp hB with h' | h'
+    · exact h'
+    · exact absurd (List.mem_map.mpr ⟨B, h', hBn⟩) hnr
+  subst hBeq
+  have hopen : (B.pitch, a, B.start) ∈ o := by
+    rcases hlink with h' | ⟨A, _, _, _, _, hbef⟩
+    · exact h'
+    · exact (not_before_head hnr hbef).elim
+  have hun : ∀ e ∈ o, e.1 = B.pitch → e.2.2 = B.start → e = (B.pitch, a, B.start) := by
+    intro e he hp hstop
+    exact h.apart e (List.mem_append_left _ he) _ (List.mem_append_left _ hopen) hp hstop
+  refine ⟨a, L', rfl, pickTie_spec hopen hun, ?_⟩
+  have hsub := removeFirst_sublist (B.pitch, a, B.start) o
+  have honce := h.once
+  simp only [List.map_cons, List.nodup_cons] at honce
+  refine ⟨?_, by simpa using hst', honce.2, ?_, ?_⟩
+  · exact h.ids.sublist ((hsub.map _).append_right _)
+  · intro ab' hab'
+    obtain ⟨B', hB', hBn', hlink'⟩ := h.link ab' (List.mem_cons_of_mem _ hab')
+    refine ⟨B', hB', hBn', ?_⟩
+    rcases hlink' with h' | h'
+    · left
+      apply mem_removeFirst_of_ne h'
+      intro heq
+      simp only [Prod.mk.injEq] at heq
+      exact honce.1 (heq.2.1 ▸ List.mem_map.mpr ⟨ab', hab', rfl⟩)
+    · exact Or.inr h'
+  · intro e he e' he'
+    have hmono : ∀ x ∈ pool (removeFirst (B.pitch, a, B.start) o) (B :: rest), x ∈ pool o (B :: rest) := by
+      intro x hx
+      rcases List.mem_append.mp hx with hx | hx
+      · exact List.mem_append_left _ (hsub.subset hx)
+      · exact List.mem_append_right _ hx
+    exact h.apart e (hmono e he) e' (hmono e' he')
+
+/-- the start of the first note: it becomes an open note -/
+theorem start_phase {o : OpenTies} {L : List (Nat × Nat)} {n : TieNote} {rest : List TieNote}
+    (h : Inv true o L n rest) :
+    ∀ m rest', rest = m :: rest' → Inv false (if n.hasStart then o ++ [entry n] else o) L m rest' := by
+  intro m rest' hrest
+  subst hrest
+  obtain ⟨hnr, hno⟩ := note_notin_rest h
+  have hstops := h.stops
+  simp only [if_true] at hstops
+  refine ⟨?_, by simpa using hstops, h.once, ?_, ?_⟩
+  · -- identities
     have hids := h.ids
-    have hn_notin_o : n.note ∉ o.map (·.2.1) := by
-      intro hc
-      have := (List.nodup_append.mp hids).2.2 _ hc n.note (by simp)
-      exact this rfl
-    have hn_notin_rest : n.note ∉ rest.map (·.note) := by
-      have := (List.nodup_append.mp hids).2.1
-      simp only [List.map_cons, List.nodup_cons] at this
-      exact this.1
+    by_cases hst : n.hasStart = true
+    · simp only [hst, if_true, List.map_append, List.map_cons, List.map_nil, entry]
+      have : ((o.map (·.2.1)) ++ (n :: m :: rest').map (·.note)).Perm
+          ((o.map (·.2.1) ++ [n.note]) ++ (m :: rest').map (·.note)) := by
+        simp
+      exact this.nodup_iff.mp hids
+    · simp only [hst, Bool.false_eq_true, if_false]
+      refine hids.sublist ?_
+      exact List.Sublist.append_left (List.sublist_cons_self _ _) _
+  · -- links
+    intro ab hab
+    obtain ⟨B, hB, hBn, hlink⟩ := h.link ab hab
+    have hBrest : B ∈ m :: rest' := by
+      rcases List.mem_cons.mp hB with h' | h'
+      · exfalso
+        subst h'
+        have : ab.2 ∈ (m :: rest').map (·.note) := by
+          have : ab.2 ∈ L.map (·.2) := List.mem_map.mpr ⟨ab, hab, rfl⟩
+          rw [hstops] at this
+          obtain ⟨x, hx, hxe⟩ := List.mem_map.mp this
+          exact List.mem_map.mpr ⟨x, (List.mem_filter.mp hx).1, hxe⟩
+        rw [← hBn] at this
+        exact hnr this
+      · exact h'
+    refine ⟨B, hBrest, hBn, ?_⟩
+    rcases hlink with h' | ⟨A, hA1, hA2, hA3, hA4, l1, l2, l3, hbef⟩
+    · left
+      by_cases hst : n.hasStart = true
+      · simp only [hst, if_true]; exact List.mem_append_left _ h'
+      · simp only [hst, Bool.false_eq_true, if_false]; exact h'
+    · cases l1 with
+      | nil =>
+        -- the first note of the link is `n` itself
+        simp only [List.nil_append, List.cons_append, List.cons.injEq] at hbef
+        obtain ⟨hAn, _⟩ := hbef
+        subst hAn
+        left
+        simp only [hA2, if_true]
+        apply List.mem_append_right
+        simp [entry, hA1, hA3, hA4]
+      | cons x xs =>
+        simp only [List.cons_append, List.cons.injEq] at hbef
+        exact Or.inr ⟨A, hA1, hA2, hA3, hA4, xs, l2, l3, hbef.2⟩
+  · -- the pool has the same members as before
+    have hmono : ∀ x ∈ pool (if n.hasStart then o ++ [entry n] else o) (m :: rest'), x ∈ pool o (n :: m :: rest') := by
+      intro x hx
+      unfold pool at hx ⊢
+      have hsplit : (n :: m :: rest').filter (·.hasStart) =
+          (if n.hasStart then [n] else []) ++ (m :: rest').filter (·.hasStart) := by
+        rw [List.filter_cons]; split <;> simp
+      rw [hsplit, List.map_append]
+      by_cases hst : n.hasStart = true
+      · simp only [hst, if_true, List.append_assoc] at hx
+        simp only [hst, if_true, List.map_cons, List.map_nil]
+        exact hx
+      · simp only [hst, Bool.false_eq_true, if_false] at hx
+        simp only [hst, Bool.false_eq_true, if_false, List.map_nil, List.nil_append]
+        exact hx
+    intro e he e' he'
+    exact h.apart e (hmono e he) e' (hmono e' he')
+
+/-- dropping the stop obligation of a note that carries no stop -/
+theorem skip_stop {o : OpenTies} {L : List (Nat × Nat)} {n : TieNote} {rest : List TieNote}
+    (h : Inv false o L n rest) (hs : n.hasStop = false) : Inv true o L n rest :=
+  ⟨h.ids, by have := h.stops; simpa [List.filter_cons, hs] using this, h.once, h.link, h.apart⟩
+
+theorem readTies_spec : ∀ (rest : List TieNote) (n : TieNote) (o : OpenTies) (L acc : List (Nat × Nat)),
+    Inv false o L n rest → ((n :: rest).foldl tieStep (o, acc)).2 = acc ++ L := by
+  intro rest
+  induction rest with
+  | nil =>
+    intro n o L acc h
+    simp only [List.foldl_cons, List.foldl_nil]
     by_cases hs : n.hasStop = true
-    · -- the next link ends here
-      have hst := h.stops
-      simp only [List.filter_cons, hs, if_true, List.map_cons] at hst
-      obtain ⟨ab, L', hL⟩ : ∃ ab L', L = ab :: L' := by
-        cases L with
-        | nil => simp at hst
-        | cons ab L' => exact ⟨ab, L', rfl⟩
+    · obtain ⟨a, L', hL, hpick, h'⟩ := stop_phase h hs
+      have hL' : L' = [] := by have := h'.stops; simpa using this
+      subst hL; subst hL'
+      simp only [tieStep, hs, if_true, hpick]
+    · have hs' : n.hasStop = false := by simpa using hs
+      have h' := skip_stop h hs'
+      have hL : L = [] := by have := h'.stops; simpa using this
       subst hL
-      simp only [List.map_cons, List.cons.injEq] at hst
-      obtain ⟨hab2, hst'⟩ := hst
-      -- its first note is open
-      obtain ⟨B, hB, hBn, hlink⟩ := h.link ab (List.mem_cons_self ..)
-      have hBeq : B = n := by
-        rcases List.mem_cons.mp hB with h' | h'
-        · exact h'
-        · exact absurd (List.mem_map.mpr ⟨B, h', by rw [hBn, hab2]⟩) hn_notin_rest
-      subst hBeq
-      have hopen : (B.pitch, ab.1, B.start) ∈ o := by
-        rcases hlink with h' | ⟨A, _, _, _, _, l1, l2, l3, hbef⟩
-        · exact h'
-        · -- nothing comes before the first note
-          exfalso
-          cases l1 with
-          | nil =>
-            simp only [List.nil_append, List.cons_append, List.cons.injEq] at hbef
-            obtain ⟨hAB, hrest⟩ := hbef
-            apply hn_notin_rest
-            rw [hrest]
-            simp
-          | cons x xs =>
-            simp only [List.cons_append, List.cons.injEq] at hbef
-            obtain ⟨hx, hrest⟩ := hbef
-            apply hn_notin_rest
-            rw [hrest]
-            simp
-      have hapart_o : o.Pairwise fun e e' => e.1 = e'.1 → e.2.2 ≠ e'.2.2 :=
-        (List.pairwise_append.mp h.apart).1
-      have hid_o : (o.map (·.2.1)).Nodup := (List.nodup_append.mp hids).1
-      have hun : ∀ e ∈ o, e.1 = B.pitch → e.2.2 = B.start → e = (B.pitch, ab.1, B.start) := by
-        intro e he hp hstop
-        by_contra hne
-        -- two different open entries of one pitch ending together
-        have := List.Pairwise.forall_of_forall (R := fun e e' => e.1 = e'.1 → e.2.2 ≠ e'.2.2)
-          (fun x y hxy hp' hq => hxy hp'.symm hq.symm) (fun x _ hp' => by simp at hp') hapart_o
-        sorry
-      sorry
-    · sorry
+      simp only [tieStep, hs', Bool.false_eq_true, if_false]
+      simp
+  | cons m rest' ih =>
+    intro n o L acc h
+    rw [List.foldl_cons]
+    by_cases hs : n.hasStop = true
+    · obtain ⟨a, L', hL, hpick, h'⟩ := stop_phase h hs
+      subst hL
+      have h'' := start_phase h' m rest' rfl
+      have hstep : tieStep (o, acc) n =
+          ((if n.hasStart then removeFirst (n.pitch, a, n.start) o ++ [entry n] else removeFirst (n.pitch, a, n.start) o),
+            acc ++ [(a, n.note)]) := by
+        simp only [tieStep, hs, if_true, hpick, entry]
+      rw [hstep, ih m _ L' _ h'']
+      simp
+    · have hs' : n.hasStop = false := by simpa using hs
+      have h' := skip_stop h hs'
+      have h'' := start_phase h' m rest' rfl
+      have hstep : tieStep (o, acc) n = ((if n.hasStart then o ++ [entry n] else o), acc) := by
+        simp only [tieStep, hs', Bool.false_eq_true, if_false, entry]
+      rw [hstep, ih m _ L _ h'']
 
 end C03.Ties
